@@ -46,9 +46,12 @@ PARTIAL = {
         "point/line/segment to triangle, rectangle, box, disk, circle, ellipsoid, cylinder and the polygon pairs are "
         "not modelled in this vertical (polygon/solid family: D3/Model/DistPoly.lean of C11); they are covered here by "
         "the definition-level search oracle only",
-    "planeToHull_* inside the band":
-        "false as stated for the as-is code: planeToHull_asIs_band / planeToTriangle_asIs_counterexample prove the "
-        "defect (finding F-c10-plane-hull-swapped); the positive theorems carry the hypothesis HullNoBand",
+    "planeToHull_opt / planeTo{Triangle,Rectangle,Box,SupportPair}_spec inside the band":
+        "optimality carries the hypothesis HullNoBand (the function passes a hard-coded epsilon 1e-6 to "
+        "_line_segment_to_plane and reports d > 0 for shallow crossings: C11-type, excluded by the property's band); "
+        "membership and consistency (planeToHull_mem1/mem2/dist, planeTo*_feas) hold for every placement since "
+        "/repo 4c5c535; the defect of the older code is kept as planeToHull_before_fix_band / "
+        "planeToTriangle_before_fix_counterexample on the model planeToHull_asIs_before_fix",
     "float rounding":
         "all theorems are at exact real arithmetic; the conditioning findings (F-c10-lineline-cancellation, "
         "F-c10-planeplane-illcond) are rounding effects of the same formulas that are exact at the reals "
@@ -84,8 +87,8 @@ MANIFEST = dict(
           "per function ok (no division by zero / sqrt of a negative in any branch), membership of both returned "
           "points, d^2 = |p1-p2|^2 with d >= 0, and global optimality against all competing point pairs (KKT / "
           "variational argument; Ericson's segment-segment clamping proved optimal), epsilon bands as explicit "
-          "hypotheses from the regenerated constants; counterexample theorem for the as-is defect of "
-          "_plane_to_convex_hull_points inside its band. Model tied to /repo by a correspondence run (Float + exact "
+          "hypotheses from the regenerated constants; counterexample theorem for the (since repaired) swapped-order "
+          "defect of _plane_to_convex_hull_points on the model of the old code. Model tied to /repo by a correspondence run (Float + exact "
           "Rat evaluation vs implementation, branch coverage, tie arbitration). "
           "Failing-input search over all 34 functions of distance3d.distance with an independent definition-level "
           "oracle for C10 (finite d >= 0, returned points members of their primitives within 1e-9*L, "
@@ -558,17 +561,6 @@ def _line_box_slab_gap(fname, args, tol):
     return lo <= hi
 
 
-def _cls_linebox_sqrt_negative(fname, args, problems):
-    """the line (or the segment's supporting line) touches / meets the box within 1e-7*L: the squared distance
-    assembled in _line_to_box._box_face is a negative rounding residue and math.sqrt raises ValueError."""
-    if fname not in ("line_to_box", "line_segment_to_box") or _whats(problems) != ["raised"]:
-        return False
-    det = problems[0]["detail"]
-    if det.get("err") != "ValueError" or "math domain error" not in str(det.get("msg")):
-        return False
-    return _line_box_slab_gap(fname, args, 1e-7 * scene_scale(fname, args))
-
-
 def _cls_linebox_cancellation_zero(fname, args, problems):
     """same root cause as the sqrt failure: the squared distance is assembled from the expanded quadratic form
     (a^2 + b^2 + c^2 + delta*t with terms of size |line_point - box centre|^2) and cancels to exactly 0.0 although
@@ -664,32 +656,6 @@ def _cls_segcircle_axis_band(fname, args, problems):
 
 
 # ---- plane to flat hull -------------------------------------------------------------------------------------------
-def _cls_plane_hull_swapped(fname, args, problems):
-    """plane crosses the triangle / rectangle at a shallow angle: extreme vertices v_min, v_max on opposite sides of
-    the plane with ((v_max - v_min)/|..| . n)^2 < 1e-6: _line_segment_to_plane takes its 'parallel' branch and
-    returns (dist, segment point, plane point); _plane_to_convex_hull_points passes that on unswapped, so the
-    documented (plane point, hull point) order is reversed and d > 0 is reported for intersecting primitives."""
-    if fname not in ("plane_to_triangle", "plane_to_rectangle"):
-        return False
-    w = set(_whats(problems))
-    if not w or not w <= {"p1-not-on-plane", "p2-not-on-triangle", "p2-not-on-rectangle"}:
-        return False
-    p, n = _v(args, "plane_point"), _v(args, "plane_normal")
-    if fname == "plane_to_triangle":
-        V = _v(args, "triangle_points")
-    else:
-        c, ax, ln = _v(args, "rectangle_center"), _v(args, "rectangle_axes"), _v(args, "rectangle_lengths")
-        # same arithmetic as geometry.convert_rectangle_to_vertices: the sign of a rounding-level offset decides
-        V = c + (np.array([[-0.5, -0.5], [-0.5, 0.5], [0.5, -0.5], [0.5, 0.5]]) * ln).dot(ax)
-    ts = (V - p).dot(n)
-    i0, i1 = int(np.argmin(ts)), int(np.argmax(ts))
-    if not ts[i0] * ts[i1] < 0.0:
-        return False
-    e = V[i1] - V[i0]
-    cosang = float(e.dot(n)) / float(np.linalg.norm(e))
-    return cosang * cosang < 1e-6 * (1.0 + 1e-9)
-
-
 # ---- plane_to_plane -------------------------------------------------------------------------------------------------
 def _cls_planeplane_illconditioned(fname, args, problems):
     """almost parallel planes just above the function's threshold (1e-6 < |n1 x n2| <= 1e-3): the common point is
@@ -732,14 +698,12 @@ _FINDING_CLASSES = [
     ("F-c10-disk-near-coplanar", _cls_disk_near_coplanar),
     ("F-c10-disk-midpoint", _cls_disk_midpoint),
     ("F-c10-disk-illcond-intersection", _cls_disk_illconditioned_intersection),
-    ("F-c10-linebox-sqrt-negative", _cls_linebox_sqrt_negative),
     ("F-c10-linebox-cancellation-zero", _cls_linebox_cancellation_zero),
     ("F-c10-lineflat-illcond-zero", _cls_lineflat_illconditioned_zero),
     ("F-c10-linecircle-axis-rounding", _cls_linecircle_axis(False)),
     ("F-c10-segcircle-param-illcond", _cls_segcircle_param),
     ("F-c10-circle-axis-band", _cls_circle_axis_band),
     ("F-c10-circle-axis-band", _cls_segcircle_axis_band),
-    ("F-c10-plane-hull-swapped", _cls_plane_hull_swapped),
     ("F-c10-planeplane-illcond", _cls_planeplane_illconditioned),
     ("F-c10-tritri-eps-zero", _cls_tritri_eps_zero),
     ("F-c10-lineline-cancellation", _cls_lineline_cancellation),
@@ -1887,6 +1851,9 @@ def correspondence(ctx):
         w = k.get("witness", {})
         if w.get("fn") in MODELLED and isinstance(w.get("args"), dict):
             cases.append((w["fn"], "K", w["args"]))
+    for fn, a in REGRESSION_WITNESSES:
+        if fn in MODELLED:
+            cases.append((fn, "K", a))
     for fname in MODELLED:
         for i in range(n):
             stream = "L" if i % 2 == 0 else "G"
@@ -1908,7 +1875,8 @@ def correspondence(ctx):
     ctx.extra["unreached_branches"] = unreached
     ctx.notes.append("plane_to_triangle/rectangle/box branches 1, 2 (t outside the segment although the end points "
                      "straddle the plane) are unreachable in exact arithmetic (straddle_hit); branch 3 is the band "
-                     "defect F-c10-plane-hull-swapped; plane_to_box/ellipsoid/cylinder cannot reach it inside domain P")
+                     "(shallow crossing treated as parallel: feasible since /repo 4c5c535, not optimal); "
+                     "plane_to_box/ellipsoid/cylinder cannot reach it inside domain P")
 
 
 # quick-tier cases per function and stream (interpreted engine; calibrated so the whole quick search stays < 40 s)
@@ -1932,6 +1900,27 @@ REGRESSION_WITNESSES = [
                                 "center": [0.0, 0.0, 0.0], "radius": 1.0, "normal": [0.6, 0.0, 0.8]}),
     ("line_to_circle", {"line_point": [1.0, 2.0, 3.0], "line_direction": [-0.6, 0.0, 0.8], "center": [1.0, 2.0, 3.0],
                         "radius": 3.0, "normal": [-0.6, 0.0, 0.8]}),
+    # /repo 4c5c535 "fix: plane_to_triangle/rectangle/box returned their two points in swapped order for nearly
+    # parallel crossings" (was F-c10-plane-hull-swapped; input of the Lean theorem
+    # C10.planeToTriangle_before_fix_counterexample, plus a rectangle in the same band)
+    ("plane_to_triangle", {"plane_point": [0.0, 0.0, 0.0], "plane_normal": [0.0, 0.0, 1.0],
+                           "triangle_points": [[0.0, 0.0, -0.000244140625], [1.0, 0.0, 0.000244140625],
+                                               [0.0, 1.0, 0.000244140625]]}),
+    ("plane_to_triangle", {"plane_point": [0.0, 0.0, 0.0], "plane_normal": [0.0, 0.0, 1.0],
+                           "triangle_points": [[0.0, 0.0, -0.0001], [1.0, 0.0, 0.0001], [0.0, 1.0, 0.0]]}),
+    ("plane_to_rectangle", {"plane_point": [0.0, 0.0, 0.0], "plane_normal": [0.0, 0.0, 1.0],
+                            "rectangle_center": [0.0, 0.0, 0.0],
+                            "rectangle_axes": [[0.9999999701976776, 0.0, 0.000244140625], [0.0, 1.0, 0.0]],
+                            "rectangle_lengths": [1.0, 1.0]}),
+    # /repo a2da3a4 "fix: line_to_box raised 'math domain error' when the line passes through the box"
+    # (was F-c10-linebox-sqrt-negative)
+    ("line_to_box", {"line_point": [0.3999999999999999, 1.7, 1.5], "line_direction": [0.36, 0.48, 0.8],
+                     "box2origin": [[1.0, 0.0, 0.0, 0.0], [0.0, 1.0, 0.0, 0.0], [0.0, 0.0, 1.0, 0.0],
+                                    [0.0, 0.0, 0.0, 1.0]], "size": [1.0, 1.0, 1.0]}),
+    ("line_segment_to_box", {"segment_start": [0.3999999999999999, 1.7, 1.5],
+                             "segment_end": [-0.68, 0.26, -0.9],
+                             "box2origin": [[1.0, 0.0, 0.0, 0.0], [0.0, 1.0, 0.0, 0.0], [0.0, 0.0, 1.0, 0.0],
+                                            [0.0, 0.0, 0.0, 1.0]], "size": [1.0, 1.0, 1.0]}),
 ]
 
 
